@@ -80,6 +80,9 @@ func scriptedWorkloads(tier string, seed int64) []WLSpec {
 			oa := defOpts(cfg, 200)
 			oa.AutoSync = true
 			mk("W6-autosync", oa, pub(2), pub(3), del("head-middle"), pub(2), pub(2), del("reader-first"), del("head-tail"), pub(1))
+			// W8 a process that dies without Sync/Close, a second one that only syncs or closes
+			mk("W8-die-reopen-sync", o, pub(3), pub(2), WLStep{Kind: "die"}, WLStep{Kind: "open", Opts: &o}, WLStep{Kind: "sync"}, pub(1), WLStep{Kind: "sync"})
+			mk("W8-die-reopen-close", o, pub(2), pub(3), pub(3), WLStep{Kind: "die"}, WLStep{Kind: "open", Opts: &o}, WLStep{Kind: "close"}, WLStep{Kind: "open", Opts: &o}, pub(2))
 			// W7 reopen with Recover/Check on clean state + KeepRewriteVersion deletes
 			orr := o
 			orr.Recover, orr.KeepVer = true, true
@@ -175,26 +178,59 @@ func recordWorkload(cfg *RunCfg, spec WLSpec, runDir string, pre *fstrace.FS) *r
 		}
 	}
 	marker := filepath.Join(runDir, "markers")
-	specPath := filepath.Join(runDir, "spec.json")
-	sb, _ := json.Marshal(spec)
-	os.WriteFile(specPath, sb, 0o600)
-	trace := filepath.Join(runDir, "trace")
-	cmd := exec.Command("strace", "-f", "-y", "-xx", "-s", "1048576", "--seccomp-bpf", "-o", trace, "-e", straceTraceSet,
-		cfg.Self, "crash-workload", rec.root, marker, specPath)
-	cmd.Env = append(os.Environ(), "GOMAXPROCS=2")
-	out, err := cmd.CombinedOutput()
-	if err != nil {
-		rec.err = fmt.Sprintf("strace run failed: %v: %s", err, clipStr(string(out), 300))
-		return rec
+	// a "die" step ends a process without Sync/Close; the remaining steps run in a new process on
+	// the same directory. Each process is traced on its own, the event lists are concatenated.
+	var parts [][]WLStep
+	var cur []WLStep
+	for _, st := range spec.Steps {
+		cur = append(cur, st)
+		if st.Kind == "die" {
+			parts = append(parts, cur)
+			cur = nil
+		}
 	}
-	tr, err := fstrace.Parse(trace, rec.root, marker)
-	if err != nil {
-		rec.err = "trace parse: " + err.Error()
-		return rec
+	if len(cur) > 0 {
+		parts = append(parts, cur)
 	}
-	if tr.SkippedLines > 0 || tr.Count(fstrace.Unsupported) > 0 {
-		rec.err = fmt.Sprintf("trace has %d unparsed lines and %d unsupported events: %v", tr.SkippedLines, tr.Count(fstrace.Unsupported), tr.Errors)
-		return rec
+	tr := &fstrace.Trace{}
+	base := 0
+	for pi, steps := range parts {
+		sub := spec
+		sub.Steps = steps
+		sub.Base = base
+		sub.Seq = base * 10
+		base += len(steps)
+		specPath := filepath.Join(runDir, fmt.Sprintf("spec%d.json", pi))
+		sb, _ := json.Marshal(sub)
+		os.WriteFile(specPath, sb, 0o600)
+		trace := filepath.Join(runDir, fmt.Sprintf("trace%d", pi))
+		cmd := exec.Command("strace", "-f", "-y", "-xx", "-s", "1048576", "--seccomp-bpf", "-o", trace, "-e", straceTraceSet,
+			cfg.Self, "crash-workload", rec.root, marker, specPath)
+		cmd.Env = append(os.Environ(), "GOMAXPROCS=2")
+		out, err := cmd.CombinedOutput()
+		if err != nil {
+			rec.err = fmt.Sprintf("strace run failed: %v: %s", err, clipStr(string(out), 300))
+			return rec
+		}
+		ptr, err := fstrace.Parse(trace, rec.root, marker)
+		if err != nil {
+			rec.err = "trace parse: " + err.Error()
+			return rec
+		}
+		unsup := ptr.Count(fstrace.Unsupported)
+		if steps[len(steps)-1].Kind == "die" {
+			// calls cut off by the exit have an unknown outcome; the process was single-goroutine and
+			// exits between calls, so there should be none - but do not trust a trace that has some
+		}
+		if ptr.SkippedLines > 0 || unsup > 0 {
+			rec.err = fmt.Sprintf("trace has %d unparsed lines and %d unsupported events: %v", ptr.SkippedLines, unsup, ptr.Errors)
+			return rec
+		}
+		for _, e := range ptr.Events {
+			e.Seq = len(tr.Events)
+			tr.Events = append(tr.Events, e)
+		}
+		os.Remove(trace)
 	}
 	// self-check: replaying the whole trace must reproduce the real final directory
 	fs := fstrace.NewFS()
@@ -212,7 +248,6 @@ func recordWorkload(cfg *RunCfg, spec WLSpec, runDir string, pre *fstrace.FS) *r
 		return rec
 	}
 	rec.events = tr.Events
-	os.Remove(trace)
 	// markers
 	var pending []byte
 	for _, e := range tr.Events {
